@@ -172,11 +172,16 @@ def check_entry(eng, obl, out, which):
         missing = [w for w in want if w not in rm]
         if missing:
             problems.append("not filtered: %s" % missing)
+        # every variant the loop visited has its fields looked at (whatever else the variant carries: a discriminant, attributes of its own)
+        if which == "enum":
+            for m in re.finditer(r"len\(item\.variants\) > (\d+)", pcs):
+                if ("item.variants.[%s].fields" % m.group(1)) not in pcs:
+                    problems.append("the fields of variant %s are not visited on a path that visits the variant (%s)" % (m.group(1), [str(c)[:50] for c in r.pc][-3:]))
         # the result handed back is the builder's result
         if "opaque" not in ex.summ(mx.State(), r.value) or core.split("::")[-1] not in ex.summ(mx.State(), r.value):
             problems.append("the returned value is not the builder's result")
         if problems:
-            probes.structural(out, "entry|%s|%s" % (which, problems[0]), "%s: %s (events %s)" % (tag, "; ".join(problems), [(e[0], e[1][0]) for e in evs][:8]), ["C14.strip", "C14.strip-on-error", "C14.strip-on-core-error"])
+            probes.structural(out, "entry|%s|%s" % (which, problems[0]), "%s: %s (events %s)" % (tag, "; ".join(problems), [(e[0], e[1][0]) for e in evs][:8]), ["C14.strip-variants", "C14.strip", "C14.strip-on-error", "C14.strip-on-core-error"])
         else:
             obl.discharged += 1
     # the filter must not depend on the builder's result: there is no fork on it
